@@ -106,6 +106,34 @@ def family(rng, smi, tier):
         rng.shuffle(p)
         mols.append(('Mol AddHs renumbered incl. H',
                      Chem.RenumberAtoms(mh, p)))
+    # the same molecule as objects that never had RDKit's ring perception
+    # run on them (products of CombineMols / of an RWMol rebuild)
+    try:
+        mols.append(('Mol from CombineMols with an empty Mol',
+                     Chem.CombineMols(Chem.MolFromSmiles(smi), Chem.Mol())))
+        rw = Chem.RWMol()
+        src = Chem.MolFromSmiles(smi)
+        for a in src.GetAtoms():
+            na = Chem.Atom(a.GetAtomicNum())
+            na.SetFormalCharge(a.GetFormalCharge())
+            na.SetNumRadicalElectrons(a.GetNumRadicalElectrons())
+            na.SetNoImplicit(a.GetNoImplicit())
+            na.SetNumExplicitHs(a.GetNumExplicitHs())
+            na.SetIsAromatic(a.GetIsAromatic())
+            rw.AddAtom(na)
+        for b in src.GetBonds():
+            rw.AddBond(b.GetBeginAtomIdx(), b.GetEndAtomIdx(),
+                       b.GetBondType())
+            rw.GetBondWithIdx(rw.GetNumBonds() - 1).SetIsAromatic(
+                b.GetIsAromatic())
+        rb = rw.GetMol()
+        rb.UpdatePropertyCache(strict=False)
+        if not any(b.GetStereo() != Chem.BondStereo.STEREONONE
+                   for b in src.GetBonds()) and \
+                Chem.MolToSmiles(rb) == canon:
+            mols.append(('Mol rebuilt atom by atom (no ring info)', rb))
+    except Exception:
+        pass
     try:
         k = Chem.MolFromSmiles(smi)
         Chem.Kekulize(k, clearAromaticFlags=True)
